@@ -23,7 +23,7 @@ import (
 func TestC01HotKey(t *testing.T) {
 	defer vt.Watch("TestC01HotKey", 180*time.Second)()
 	rec := vt.For("C01")
-	rec.Rule("hot balance (statistical, free-running): 8-40 light clients bill the same one or two hosts at the same moment, 5-40 keep-alives each, through the real balance manager on badger (in-memory) or the memory driver; hosts and clients on trial balances or wallets; oracle: ledger total unchanged (zero-sum), each host's credit == sum of the per-peer credit of the keep-alives that returned nil (a keep-alive that returned an error moved nothing), each client's balance == -(its acknowledged charges); non-trivial = >= 16 simultaneous writers on one key; distinct by config")
+	rec.Rule("hot balance (statistical, free-running): 8-40 light clients bill the same one or two hosts at the same moment, 5-40 keep-alives each, through the real balance manager on badger (in-memory) or the memory driver; hosts and clients on trial balances or wallets, optionally every node being linked to a wallet while the storm is on; oracle: ledger total unchanged (zero-sum), each host's credit == sum of the per-peer credit of the keep-alives that returned nil (a keep-alive that returned an error moved nothing), each client's balance == -(its acknowledged charges); non-trivial = >= 16 simultaneous writers on one key; distinct by config")
 	check(t, func(rt *rapid.T) {
 		driver := rapid.SampledFrom([]string{"badger", "badger", "badger", "memory"}).Draw(rt, "driver")
 		var st store.Store
@@ -89,6 +89,33 @@ func TestC01HotKey(t *testing.T) {
 				}
 			}()
 		}
+		// while the storm is on, wallets are linked: every client to a wallet of its own (and, when the hosts have no
+		// wallet yet, every host to one) - the trial credit moves over exactly once, whatever is billed meanwhile
+		linkDuring := rapid.Bool().Draw(rt, "linkDuringTheStorm")
+		if linkDuring {
+			for c := range clients {
+				wg.Add(1)
+				go func() {
+					defer wg.Done()
+					<-start
+					if err := st.AddAccountNode(store.Account(fmt.Sprintf("0xclientwallet%02d", c)), clients[c].ID); err != nil {
+						panic(err)
+					}
+				}()
+			}
+			if !walletHosts {
+				for h := range hosts {
+					wg.Add(1)
+					go func() {
+						defer wg.Done()
+						<-start
+						if err := st.AddAccountNode(store.Account(fmt.Sprintf("0xhostwallet%02d", h)), hosts[h].ID); err != nil {
+							panic(err)
+						}
+					}()
+				}
+			}
+		}
 		close(start)
 		wg.Wait()
 		// read back
@@ -136,8 +163,8 @@ func TestC01HotKey(t *testing.T) {
 		if err == nil && s.TotalCredit.Sign() != 0 {
 			rt.Fatalf("%s: Stats().TotalCredit = %s after the storm (own sum is 0)", driver, &s.TotalCredit)
 		}
-		rec.Case(fmt.Sprintf("hot|%s|%d|%d|%d|%v|%s", driver, nClients, nHosts, rounds, walletHosts, price), nClients >= 16, []string{"hot:driver:" + driver, fmt.Sprintf("hot:clients:%d", nClients)}, func() interface{} {
-			return map[string]interface{}{"level": "hot key", "driver": driver, "clients": nClients, "hosts": nHosts, "keepalives_each": rounds, "hosts_share_wallet": walletHosts, "acknowledged": okN, "failed": failN, "host_credit": hostCredit.String()}
+		rec.Case(fmt.Sprintf("hot|%s|%d|%d|%d|%v|%v|%s", driver, nClients, nHosts, rounds, walletHosts, linkDuring, price), nClients >= 16, []string{"hot:driver:" + driver, fmt.Sprintf("hot:clients:%d", nClients)}, func() interface{} {
+			return map[string]interface{}{"level": "hot key", "driver": driver, "clients": nClients, "hosts": nHosts, "keepalives_each": rounds, "hosts_share_wallet": walletHosts, "wallets_linked_during_the_storm": linkDuring, "acknowledged": okN, "failed": failN, "host_credit": hostCredit.String()}
 		})
 	})
 }
